@@ -15,4 +15,7 @@ pub open spec fn built(sink: Seq<u8>, base: Seq<u8>, len: nat, entries: Seq<Entr
     &&& len == entries.len()
     // every node can be decoded in place (the readers' precondition; unit layout)
     &&& all_decodable(body, VERSION)
+    // C12 / machine arithmetic of the readers: every node but a keyless root is live; outputs are non-negative; the shared empty
+    // final node is never written; a file whose values are all 0 carries no outputs; the values are u64s
+    &&& gok_but(bgraph(body), root, false) && (zvals(entries) ==> gok_but(bgraph(body), root, true)) && vals_fit(entries)
 }
